@@ -251,6 +251,10 @@ func (s *ASpec) build() (*core.Spec, error) {
 		return nil, &core.ActionSource{Interpreter: "ecmascript", Source: a.P.JS()}
 	}
 	var given []interface{}
+	jsonSyntax, npat := !s.SkipCompile && buildCount%5 == 1, 0
+	if jsonSyntax {
+		spec.PatternSyntax = "json"
+	}
 	for name, nd := range s.Nodes {
 		n := &core.Node{}
 		n.Action, n.ActionSource = act(nd.Action)
@@ -261,6 +265,16 @@ func (s *ASpec) build() (*core.Spec, error) {
 				if b.HasPattern {
 					br.Pattern = deepCopy(b.Pattern, nil)
 					given = append(given, br.Pattern)
+					if jsonSyntax {
+						// the "json" pattern syntax: a pattern is JSON text, or (from a Go program / a YAML document)
+						// a native value with whole numbers as ints - Compile makes plain JSON data of either
+						npat++
+						if npat%2 == 0 {
+							br.Pattern = jsText(b.Pattern)
+						} else {
+							br.Pattern = nativeInts(br.Pattern)
+						}
+					}
 				}
 				br.Guard, br.GuardSource = act(b.Guard)
 				n.Branches.Branches = append(n.Branches.Branches, br)
@@ -589,4 +603,27 @@ func scribble(x interface{}) {
 			v[i] = "scribbled"
 		}
 	}
+}
+
+// nativeInts: a copy in which every whole number is an int
+func nativeInts(x interface{}) interface{} {
+	switch v := x.(type) {
+	case map[string]interface{}:
+		m := make(map[string]interface{}, len(v))
+		for k, y := range v {
+			m[k] = nativeInts(y)
+		}
+		return m
+	case []interface{}:
+		a := make([]interface{}, len(v))
+		for i, y := range v {
+			a[i] = nativeInts(y)
+		}
+		return a
+	case float64:
+		if v == float64(int(v)) && v > -1e9 && v < 1e9 {
+			return int(v)
+		}
+	}
+	return x
 }
